@@ -125,9 +125,58 @@ def sim_cases(cases):
     return out
 
 
+def sync_cases(cases):
+    """Deferred synchronisation: n WHFast steps with safe_mode=0 leave the simulation unsynchronized; then synchronized
+    output is obtained in one of several ways.  Returns the state, the reported time and dt_last_done."""
+    import os, tempfile
+    out = []
+    for c in cases:
+        try:
+            sim = rebound.Simulation()
+            sim.G = fh(c["G"])
+            for key in ("p0", "p1"):
+                p = [fh(v) for v in c[key]]
+                sim.add(m=fh(c["m0"] if key == "p0" else c["m1"]), x=p[0], y=p[1], z=p[2], vx=p[3], vy=p[4], vz=p[5])
+            sim.integrator = "whfast"
+            sim.ri_whfast.coordinates = c["coordinates"]
+            sim.ri_whfast.kernel = c.get("kernel", "default")
+            sim.ri_whfast.safe_mode = 0
+            sim.ri_whfast.keep_unsynchronized = c.get("keep_unsynchronized", 0)
+            dt = fh(c["dt"])
+            sim.dt = dt
+            sim.steps(c["n"])
+            way = c["way"]
+            if way.startswith("save_load"):
+                fd, path = tempfile.mkstemp(suffix=".bin", dir="/tmp")
+                os.close(fd)
+                os.remove(path)
+                sim.save_to_file(path)
+                sim = rebound.Simulation(path)
+                os.remove(path)
+            elif way.startswith("copy"):
+                sim = sim.copy()
+            if way.endswith("synchronize"):
+                sim.synchronize()
+            elif way.endswith("integrate_noop"):
+                sim.integrate(sim.t)
+            elif way.endswith("integrate_small"):
+                sim.integrate(sim.t + c["f"] * dt)
+            elif way.endswith("integrate_eft0"):
+                sim.integrate(sim.t + c["f"] * dt, exact_finish_time=0)
+            else:
+                raise ValueError("unknown way " + way)
+            ps = sim.particles
+            res = {"state": [[getattr(ps[i], n).hex() for n in C6] for i in range(sim.N)], "t": sim.t.hex(),
+                   "dt": sim.dt.hex(), "dt_last_done": sim.dt_last_done.hex(), "is_synchronized": int(sim.ri_whfast.is_synchronized)}
+        except Exception as e:
+            res = {"error": repr(e)[:300]}
+        out.append(res)
+    return out
+
+
 def main():
     job = json.load(sys.stdin)
-    res = solver_cases(job["cases"]) if job["mode"] == "solver" else sim_cases(job["cases"])
+    res = {"solver": solver_cases, "sim": sim_cases, "sync": sync_cases}[job["mode"]](job["cases"])
     json.dump(res, sys.stdout)
 
 
